@@ -162,7 +162,7 @@ func (g *c38Good) note(b []byte) {
 }
 
 func streamC38(h *H) {
-	n := h.N(2700, 40000)
+	n := h.N(1200, 15000)
 	for i := 0; i < n; i++ {
 		switch {
 		case i%9 == 7:
